@@ -26,7 +26,13 @@ RULE = ("Hypothesis draws sample sets over d 2..4(5) modes with 1..4(5) index va
         "size 2), i.e. 11..56 add_many summands so that the periodic roundings of the summation schedule are reached (also exactly "
         "on the last summand: d = 6, 10), up to 250(400) samples, r in {2,3,4,5,8,50} (small r binds); the class's A(I) is evaluated "
         "on a drawn sample of 300 multi-indices when the domain exceeds 600. History in both order-2 subs: the fitted object is "
-        "asked again for cores with another rank r2 in {2,3,4,8,50}: shape, rank bound r2, values (cap not binding), f0/f1 unchanged.")
+        "asked again for cores with another rank r2 in {2,3,4,8,50}: shape, rank bound r2, values (cap not binding), f0/f1 unchanged. "
+        "Spelling / dtype of the data arguments (all subs): y_trn as float64 / float32 / float16 / int64 / int32 ndarray (also "
+        "non-contiguous views), list of Python floats / ints; I_trn as int64 / int32 / uint8 ndarray (also Fortran-ordered, "
+        "non-contiguous) or nested list; functional variant X_trn float64 / float32 (C, F, strided) or nested list, y_trn as above. "
+        "The reference is computed in binary64 from the values the argument denotes (float(v) per element, exact), with the "
+        "tolerances of the float64 spelling. y family `offset`: 1000 / -250 / 1e6 / 100 + 0.1 N(0,1) (offset >> variation), also as "
+        "the additive function of the full-grid sub.")
 TOLERANCES = ("f0: 2(m+4) eps mean|y|; f1/f2: the same for the conditional mean + inherited terms; order 1: |dense - model| <= "
               "dense(|C0|+D) - dense(|C0|) + 2K eps dense(|C0|+D), D = 3*noise (40*noise for int seeds) on non-structural entries and the "
               "f-tolerances on structural ones, K = 32(d+sum r+max n); order 2 (no bond rank equal to the cap r): Frobenius error <= "
@@ -39,7 +45,11 @@ ASSUMPTIONS = ["d >= 2, r >= 2 (cores_1 writes column 1 of every core), noise >=
                "functional variant: lamb >= 1e-8 (condition number of the normal equations far below gelsy's 1/eps rank cut), "
                "points inside the box, box offset ratio max(|a|,|b|)/(b-a) <= ~20, n >= 2",
                "the eigh floor of truncate (C02) is a stated tolerance of the order-2 route, not a finding",
-               "only_near=True of ANOVA.cores is outside the property text and not exercised"]
+               "only_near=True of ANOVA.cores is outside the property text and not exercised",
+               "data arrays of a narrower real or an integer dtype denote the (exactly representable) doubles of their elements; "
+               "uint8 index arrays carry labels in 0..255; float16 values are clipped to +-60000 and int32 to +-2e9 before the cast "
+               "(by construction, so that every value passed is finite); the additive full-grid claim is asserted up to "
+               "(2d+2 [+3d(d-1) for order 2]) times the rounding of the values into the drawn dtype"]
 
 B_DUCK = 3.0
 B_INT = 40.0
@@ -104,7 +114,8 @@ def data_fields(draw, tier, layouts, n=None, m_hi=None, m_many=False):
     case = {"n": n, "layout": lay, "dseed": draw(gen.seeds), "shuffle": draw(st.booleans()),
             "m": draw(st.one_of(*([st.integers(1, 5)] + [st.integers(6, m_hi)] * (5 if m_many else 2)))),
             "rep": draw(st.integers(2, 3)),
-            "as_list": draw(st.integers(0, 3)) == 0}
+            "as_list": draw(st.integers(0, 3)) == 0,
+            "ydt": draw(st.sampled_from(YDT)), "idt": draw(st.sampled_from(IDT))}
     lk = draw(st.sampled_from(["affine", "affine", "identity", "drawn", "drawn"]))
     if lk == "affine":
         case["labels"] = [[2 * i + 3 for i in range(k)] for k in n]
@@ -119,9 +130,91 @@ def data_fields(draw, tier, layouts, n=None, m_hi=None, m_many=False):
         case["yv"] = [draw(st.one_of(st.integers(-3, 3).map(float), gen.reals(-10, 10))) for _ in range(m)]
         case["yfam"] = "explicit"
     else:
-        case["yfam"] = draw(st.sampled_from(["gauss", "gauss", "gauss", "smallint", "const", "zero"]))
+        case["yfam"] = draw(st.sampled_from(["gauss", "gauss", "gauss", "smallint", "const", "zero", "offset", "offset"]))
+        if case["yfam"] == "offset":
+            case["offset"] = draw(st.sampled_from([1000.0, 1000.0, -250.0, 1.0e6, 100.0]))
     case["scale10"] = draw(st.sampled_from([0, 0, 0, 3, -3]))
     return case
+
+
+# ---- dtype / spelling of the data arguments.  The model is the one of the VALUES passed: an array of a narrower real dtype or
+# of an integer dtype, or a list of Python numbers, denotes exactly representable doubles; the reference is computed in
+# binary64 from those doubles (float(v) of every element is exact), with the tolerances of the float64 spelling.
+YDT = ["f8", "f8", "f4", "f4", "f4", "f2", "i8", "i4", "list", "list", "list_int", "f8_strided", "f4_strided"]
+IDT = ["i8", "i8", "i4", "u1", "list", "list", "i8_forder", "i4_strided"]
+XDT = ["f8", "f8", "f4", "f4", "list", "f8_forder", "f4_strided"]
+
+
+def _strided(a):
+    """The same values as a non-contiguous view (every second element along the first axis of a twice as long buffer)."""
+    buf = np.repeat(a, 2, axis=0)
+    if buf.dtype.kind == "f":
+        buf[1::2] = np.nan                              # what lies between the elements is not data
+    else:
+        buf[1::2] = 7
+    v = buf[::2]
+    assert not v.flags["C_CONTIGUOUS"] or len(a) <= 1
+    return v
+
+
+def spell_y(y, ydt):
+    """(argument handed to the library, the float64 array of exactly the values it denotes)."""
+    y = np.asarray(y, dtype=float)
+    base = ydt.split("_")[0]
+    if ydt in ("list",):
+        arg = y.tolist()
+    elif ydt == "list_int":
+        arg = [int(v) for v in np.rint(y)]
+    elif base == "f8":
+        arg = y.copy()
+    elif base == "f4":
+        arg = y.astype(np.float32)
+    elif base == "f2":
+        arg = np.clip(y, -60000.0, 60000.0).astype(np.float16)
+    elif base == "i8":
+        arg = np.rint(y).astype(np.int64)
+    elif base == "i4":
+        arg = np.rint(np.clip(y, -2.0e9, 2.0e9)).astype(np.int32)
+    else:
+        raise ValueError(ydt)
+    if ydt.endswith("_strided"):
+        arg = _strided(arg)
+    ref = np.array([float(v) for v in arg], dtype=float).reshape(-1)
+    assert np.all(np.isfinite(ref))
+    return arg, ref
+
+
+def spell_I(I, idt):
+    """(argument handed to the library, the int64 array of the labels it denotes); uint8 needs labels in 0..255 (ours are in
+    -9..83, shifted by construction when one is negative)."""
+    I = np.asarray(I, dtype=np.int64)
+    base = idt.split("_")[0]
+    if base == "u1" and I.size and int(I.min()) < 0:
+        I = I + 9
+    if idt == "list":
+        arg = I.tolist()
+    elif base == "i8":
+        arg = I.copy()
+    elif base == "i4":
+        arg = I.astype(np.int32)
+    elif base == "u1":
+        arg = I.astype(np.uint8)
+    else:
+        raise ValueError(idt)
+    if idt.endswith("_forder"):
+        arg = np.asfortranarray(arg)
+    elif idt.endswith("_strided"):
+        arg = _strided(arg)
+    ref = np.array([[int(v) for v in row] for row in arg], dtype=np.int64).reshape(len(I), I.shape[1])
+    assert np.array_equal(ref, I)
+    return arg, ref
+
+
+def case_dtypes(case):
+    """Spellings of (I_trn, y_trn); cases stored before the dtype axis existed carry only `as_list`."""
+    if "ydt" in case:
+        return case["idt"], case["ydt"]
+    return ("list", "list") if case.get("as_list") else ("i8", "f8")
 
 
 def positions(case):
@@ -164,10 +257,15 @@ def make_data(case):
         y = rng.integers(-3, 4, size=m).astype(float)
     elif fam == "const":
         y = np.full(m, 1.75)
+    elif fam == "offset":                               # large offset relative to the variation
+        y = case["offset"] + 0.1 * rng.normal(size=m)
     else:
         y = np.zeros(m)
     y = y * 10.0 ** case["scale10"]
-    return I, y, J
+    idt, ydt = case_dtypes(case)
+    Iarg, I = spell_I(I, idt)
+    yarg, y = spell_y(y, ydt)
+    return I, y, J, Iarg, yarg
 
 
 # ------------------------------------------------------------------------------------------- reference model
@@ -329,11 +427,10 @@ def cmp_table(ctx, got, refv, tol, what, **kw):
                   ref=float(refv.ravel()[j]), tol=float(np.asarray(tol).ravel()[j] if np.ndim(tol) else tol), **kw)
 
 
-def run_anova(ctx, case, I, y, order):
-    """Call the library along the drawn route; returns (cores, class instance built with an identical generator, noise, B)."""
+def run_anova(ctx, case, Iarg, yarg, y, order):
+    """Call the library along the drawn route with the data in the drawn spelling (Iarg, yarg; y = the float64 values that
+    yarg denotes); returns (cores, class instance built with an identical generator, noise, B)."""
     r = case["r"]
-    Iarg = I.tolist() if case["as_list"] else I
-    yarg = y.tolist() if case["as_list"] else y
     seed, B = make_seed(case)
     route = case["route"]
     if route == "class_rel":
@@ -372,6 +469,8 @@ def data_labels(ctx, case, ref, I):
     d = len(ref["n"])
     ctx.label("layout:" + case["layout"], "labels:" + case["labkind"], "y:" + case["yfam"], f"d={d}", f"r={case['r']}",
               "gen:" + case["gen"], "route:" + case["route"], f"scale=1e{case['scale10']}")
+    idt, ydt = case_dtypes(case)
+    ctx.label("I_trn:" + idt, "y_trn:" + ydt)
     if case["route"] != "class_rel":
         ctx.label(f"noise={case['noise']:g}")
     if 1 in ref["n"]:
@@ -396,7 +495,7 @@ def order1_cases(draw, tier):
 
 
 def prop_order1(case, ctx):
-    I, y, J = make_data(case)
+    I, y, J, Iarg, yarg = make_data(case)
     ref = ref_model(I, y, 1)
     d = len(ref["n"])
     r = case["r"]
@@ -404,7 +503,7 @@ def prop_order1(case, ctx):
     sparse = int(np.prod(ref["n"])) > len({tuple(row) for row in I.tolist()})
     ctx.nontrivial((sparse and dup) or r > 2)
 
-    Y, A, noise, B = run_anova(ctx, case, I, y, 1)
+    Y, A, noise, B = run_anova(ctx, case, Iarg, yarg, y, 1)
     check_f01(ctx, A, ref)
     check_call(ctx, A, ref, case["as_list"])
 
@@ -506,7 +605,7 @@ def order2_values(ctx, Y, ref, r, bn, own, what, **kw):
 
 
 def prop_order2(case, ctx):
-    I, y, J = make_data(case)
+    I, y, J, Iarg, yarg = make_data(case)
     ref = ref_model(I, y, 2)
     n = ref["n"]
     d = len(n)
@@ -515,7 +614,7 @@ def prop_order2(case, ctx):
     ctx.label(f"summands={1 + d * (d - 1) // 2}")
     ctx.nontrivial(True)
 
-    Y, A, noise, B = run_anova(ctx, case, I, y, 2)
+    Y, A, noise, B = run_anova(ctx, case, Iarg, yarg, y, 2)
     check_f01(ctx, A, ref)
     own = check_call(ctx, A, ref, case["as_list"], case["dseed"])
 
@@ -565,8 +664,10 @@ def additive_cases(draw, tier):
     n = _cap([draw(mode_sizes(big)) for _ in range(d)], 1024 if big else 256)
     order = draw(st.sampled_from([1, 2]))
     case = {"n": n, "order": order, "rep": draw(st.integers(1, 3)), "shuffle": draw(st.booleans()), "dseed": draw(gen.seeds),
-            "gfam": draw(st.sampled_from(["smallint", "gauss", "gauss", "explicit"])), "scale10": draw(st.sampled_from([0, 0, 3, -3])),
-            "as_list": draw(st.integers(0, 3)) == 0}
+            "gfam": draw(st.sampled_from(["smallint", "gauss", "gauss", "explicit", "offset"])), "scale10": draw(st.sampled_from([0, 0, 3, -3])),
+            "as_list": draw(st.integers(0, 3)) == 0, "ydt": draw(st.sampled_from(YDT)), "idt": draw(st.sampled_from(IDT))}
+    if case["gfam"] == "offset":
+        case["offset"] = draw(st.sampled_from([1000.0, -250.0, 1.0e6, 100.0]))
     if case["gfam"] == "explicit":
         case["g"] = [[draw(st.one_of(st.integers(-3, 3).map(float), gen.reals(-4, 4))) for _ in range(k)] for k in n]
         case["c"] = draw(gen.reals(-4, 4))
@@ -592,6 +693,8 @@ def prop_additive(case, ctx):
         g = [np.array(v, dtype=float) for v in case["g"]]; c = float(case["c"])
     elif case["gfam"] == "smallint":
         g = [rng.integers(-3, 4, size=k).astype(float) for k in n]; c = float(rng.integers(-3, 4))
+    elif case["gfam"] == "offset":                      # constant far larger than the variation of the univariate terms
+        g = [rng.normal(size=k) * 0.1 for k in n]; c = float(case["offset"])
     else:
         g = [rng.normal(size=k) * 2 for k in n]; c = float(rng.normal())
     sc = 10.0 ** case["scale10"]
@@ -604,17 +707,28 @@ def prop_additive(case, ctx):
     for k in range(d):
         y = y + g[k][J[:, k]]
     I = np.column_stack([np.array(case["labels"][k], dtype=int)[J[:, k]] for k in range(d)])
+    # the data in the drawn spelling / dtype; from here on y is the float64 array of the values actually passed
+    idt, ydt = case_dtypes(case)
+    Iarg, I = spell_I(I, idt)
+    yarg, ycast = spell_y(y, ydt)
+    cast = float(np.max(np.abs(ycast - y)))
+    y = ycast
     # position in the tensor = rank of the label among the observed labels of the mode
     rank_of = [np.argsort(np.argsort(case["labels"][k])) for k in range(d)]
     Ytab = np.zeros(n)
     Ytab[tuple(rank_of[k][J[:, k]] for k in range(d))] = y
     mag = abs(c) + sum(float(np.max(np.abs(v))) for v in g)
-    drift = (2 * d + 2) * 4 * (d + 1) * EPS * mag       # y is additive only up to the rounding of its own evaluation
+    # the values passed are additive only up to delta = rounding of their own evaluation + rounding into the drawn dtype;
+    # the model is linear in y and reproduces the additive part, so |model(y) - y| <= |model(delta)| + |delta| with
+    # |f0(delta)| <= delta, |f1| <= 2 delta per mode, |f2| <= 6 delta per pair
+    delta = 4 * (d + 1) * EPS * mag + cast
+    drift = (2 * d + 2 + (3 * d * (d - 1) if order == 2 else 0)) * delta
 
     ref = ref_model(I, y, order)
-    ctx.label(f"order={order}", f"d={d}", f"rep={case['rep']}", "g:" + case["gfam"], f"r={r}", "gen:" + case["gen"], f"noise={case['noise']:g}")
+    ctx.label(f"order={order}", f"d={d}", f"rep={case['rep']}", "g:" + case["gfam"], f"r={r}", "gen:" + case["gen"], f"noise={case['noise']:g}",
+              "I_trn:" + idt, "y_trn:" + ydt, "cast_exact" if cast == 0 else "cast_rounds")
     ctx.nontrivial(r > 2 or order == 2 or case["rep"] > 1)
-    Y, A, noise, B = run_anova(ctx, case, I, y, order)
+    Y, A, noise, B = run_anova(ctx, case, Iarg, yarg, y, order)
     why = oracle.wellformed(Y, n)
     ctx.check(why is None, f"anova on a full grid: result is not a well-formed TT-tensor of the grid shape: {why}")
     ranks = oracle.ranks_of(Y)
@@ -635,7 +749,7 @@ def prop_additive(case, ctx):
         bound = fro(pre + ref["tolM"] + drift) + Efin
         ctx.check(np.all(np.isfinite(F)) and err <= bound, "anova(order=2): additive function sampled on a full grid is not reproduced",
                   err=err, bound=bound, ranks=ranks, noise=noise)
-    got = np.asarray(ctx.lib(A, I), dtype=float)
+    got = np.asarray(ctx.lib(A, Iarg), dtype=float)
     ctx.check(bool(np.all(np.abs(got - y) <= ref["tolM"].max() + drift)), "ANOVA(I) does not reproduce an additive function on its full grid",
               worst=float(np.max(np.abs(got - y))))
 
@@ -650,10 +764,13 @@ def func_cases(draw, tier):
     box = draw(st.sampled_from(["unit", "scalar", "list", "list"]))
     case = {"d": d, "n": n, "m": draw(st.integers(1, 60 if big else 30)), "box": box, "xseed": draw(gen.seeds),
             "pts": draw(st.sampled_from(["uniform", "uniform", "boundary", "dups", "few_values"])),
-            "yfam": draw(st.sampled_from(["gauss", "gauss", "cheb_additive", "smallint", "const", "zero"])),
+            "yfam": draw(st.sampled_from(["gauss", "gauss", "cheb_additive", "smallint", "const", "zero", "offset"])),
             "lamb10": draw(st.sampled_from([None, -8, -7, -6, -4, -3, -2, -1, 0, 1])),
             "e": draw(st.sampled_from([None, None, "default", 1e-8, 1e-4, 1e-2])),
-            "scale10": draw(st.sampled_from([0, 0, 3, -3])), "ntest": draw(st.integers(1, 6)), "as_list": draw(st.integers(0, 3)) == 0}
+            "scale10": draw(st.sampled_from([0, 0, 3, -3])), "ntest": draw(st.integers(1, 6)), "as_list": draw(st.integers(0, 3)) == 0,
+            "xdt": draw(st.sampled_from(XDT)), "ydt": draw(st.sampled_from(YDT))}
+    if case["yfam"] == "offset":
+        case["offset"] = draw(st.sampled_from([1000.0, -250.0, 1.0e6, 100.0]))
     k = 1 if box == "scalar" else (d if box == "list" else 0)
     case["a"] = [draw(gen.reals(-5, 5)) for _ in range(k)]
     case["w"] = [draw(st.sampled_from([0.5, 1.0, 2.0, 3.7, 10.0])) for _ in range(k)]
@@ -689,9 +806,37 @@ def prop_func(case, ctx):
             U = rng.integers(0, 3, size=U.shape) / 2.0
         return np.clip(a + (b - a) * U, a, b)
 
+    if "xdt" in case:
+        xdt, ydt = case["xdt"], case["ydt"]
+    else:
+        xdt = ydt = "list" if case["as_list"] else "f8"
+
+    def spell_X(P):
+        """(argument for the library, float64 array of the values it denotes); float32 points that rounding put outside the
+        box are moved to the neighbouring float32 number inside it (the points are inside the box by construction)."""
+        base = xdt.split("_")[0]
+        if xdt == "list":
+            return P.tolist(), P
+        if base == "f4":
+            Q = P.astype(np.float32)
+            for _ in range(2):
+                Q = np.where(Q.astype(float) < a, np.nextafter(Q, np.float32(np.inf)), Q)
+                Q = np.where(Q.astype(float) > b, np.nextafter(Q, np.float32(-np.inf)), Q)
+            Q = np.ascontiguousarray(Q, dtype=np.float32)
+        else:
+            Q = P.copy()
+        if xdt.endswith("_forder"):
+            Q = np.asfortranarray(Q)
+        elif xdt.endswith("_strided"):
+            Q = _strided(Q)
+        R = np.array([[float(v) for v in row] for row in Q], dtype=float).reshape(P.shape)
+        assert np.all(R >= a) and np.all(R <= b)
+        return Q, R
+
     X = points(m)
     if case["pts"] == "dups" and m >= 2:
         X[m // 2:] = X[rng.integers(0, m // 2, size=m - m // 2)]
+    Xarg, X = spell_X(X)
     t = np.clip((2 * X - a - b) / (b - a), -1.0, 1.0)
     fam = case["yfam"]
     if fam == "gauss":
@@ -704,17 +849,18 @@ def prop_func(case, ctx):
         y = rng.integers(-3, 4, size=m).astype(float)
     elif fam == "const":
         y = np.full(m, 1.75)
+    elif fam == "offset":
+        y = case["offset"] + 0.1 * rng.normal(size=m)
     else:
         y = np.zeros(m)
     y = y * 10.0 ** case["scale10"]
+    yarg, y = spell_y(y, ydt)                        # from here on y = float64 array of the values actually passed
     lamb = 1e-7 if case["lamb10"] is None else 10.0 ** case["lamb10"]
-    ctx.label("box:" + box, "pts:" + case["pts"], "y:" + fam, f"d={d}", f"n={n}", f"e={case['e']}",
+    ctx.label("box:" + box, "pts:" + case["pts"], "y:" + fam, f"d={d}", f"n={n}", f"e={case['e']}", "X_trn:" + xdt, "y_trn:" + ydt,
               "lamb=default" if case["lamb10"] is None else f"lamb=1e{case['lamb10']}", "m<n" if m < n else "m>=n")
     ctx.nontrivial(m >= 2 and float(np.ptp(y)) > 0)
 
     # ---- library calls
-    Xarg = X.tolist() if case["as_list"] else X
-    yarg = y.tolist() if case["as_list"] else y
     kw = {}
     if case["lamb10"] is not None:
         kw["lamb"] = lamb
@@ -790,7 +936,7 @@ def prop_func(case, ctx):
                   "ANOVA_func.coeffs[k] differs from the independent ridge solve", k=k, got=got, ref=cs[k], tol=tcs[k], lamb=lamb)
 
     # ---- the interpolant at the training points and at fresh points of the box
-    Xt = np.vstack([X[:min(m, 8)], points(case["ntest"])])
+    Xtarg, Xt = spell_X(np.vstack([X[:min(m, 8)], points(case["ntest"])]))
     tt = np.clip((2 * Xt - a - b) / (b - a), -1.0, 1.0)
     Vt = [cheb_vander(tt[:, k], n) for k in range(d)]
     refv = np.full(len(Xt), c0)
@@ -802,7 +948,7 @@ def prop_func(case, ctx):
         tolv = tolv + tcs[k] * np.linalg.norm(Vt[k][:, 1:], axis=1) + float(np.abs(cs[k]) @ tT[1:])
     Kev = oracle.K_of(A0) + 16 * (d + 44)
     tolv = tolv + Kev * EPS * maj
-    got = np.asarray(ctx.lib(teneva.func_get, Xt.tolist() if case["as_list"] else Xt, A0, **gkw), dtype=float)
+    got = np.asarray(ctx.lib(teneva.func_get, Xtarg, A0, **gkw), dtype=float)
     cmp_table(ctx, got, refv, tolv, "func_get(X, anova_func(e=None)) differs from c0 + sum_k sum_p c_kp T_p(t_k)", lamb=lamb)
 
     # ---- truncated cores
